@@ -1972,5 +1972,69 @@ func rulesTraceStart(c *Ctx, r *Report) {
 				"the search loop runs over every element of its parameter and is left only at its end", "the search for the best cell does not visit every element ("+why+")")
 		})
 	}
+	if n == 0 {
+		// the search written out in the traceback itself: a loop over the whole table whose running best index is
+		// what the walk starts from
+		for _, f := range c.stageFuncs(root) {
+			if len(f.Params) == 0 {
+				continue
+			}
+			tphi := traceLoopVar(f)
+			if tphi == nil {
+				continue
+			}
+			var start *ssa.Phi
+			for i, e := range tphi.Edges {
+				if !tphi.Block().Dominates(tphi.Block().Preds[i]) {
+					if ph, ok := e.(*ssa.Phi); ok && ph.Block() != tphi.Block() && isLoopHeader(ph.Block()) {
+						start = ph
+					}
+				}
+			}
+			if start == nil {
+				continue
+			}
+			header := start.Block()
+			loop := naturalLoop(header)
+			okExit := true
+			for b := range loop {
+				for _, su := range b.Succs {
+					if !loop[su] && b != header {
+						okExit = false
+					}
+				}
+			}
+			okBound := false
+			for _, in2 := range header.Instrs {
+				phi, ok := in2.(*ssa.Phi)
+				if !ok || phi == start {
+					continue
+				}
+				l, w := findCountedLoop(phi)
+				if w != "" {
+					for _, ref := range *phi.Referrers() {
+						if b, ok := ref.(*ssa.BinOp); ok && b.Op == token.ADD {
+							if l2, w2 := findCountedLoopAny(phi, b); w2 == "" {
+								l, w = l2, ""
+							}
+						}
+					}
+				}
+				if w == "" && l != nil {
+					if bl, ok := l.bound.(*ssa.Call); ok {
+						if bi, ok := bl.Call.Value.(*ssa.Builtin); ok && bi.Name() == "len" && bl.Call.Args[0] == ssa.Value(f.Params[0]) {
+							okBound = true
+						}
+					}
+				}
+			}
+			n++
+			r.check(okBound, "T-START", fname(f), "searches the whole table", c.pos(start.Pos()),
+				"the best cell is searched by a loop over the whole table parameter", "the loop that looks for the best cell does not count over len of the whole table")
+			r.holds("T-START", fname(f), "starts at the cell found", c.pos(start.Pos()), "the walk starts at the running best index of the search loop, unchanged")
+			r.check(okExit, "T-START", fname(f), "visits every cell", c.pos(start.Pos()),
+				"the search loop is left only at its end", "the search for the best cell leaves its loop early")
+		}
+	}
 	r.floor("T-START", n, 1, "calls of the best-cell search in Local's traceback")
 }
